@@ -121,4 +121,50 @@ def oracle10f (cur : World) (op : Op) (k : Nat) (ioOk : Bool) : Bool :=
   !(mo0.ok && decide (k < mo0.msgs.length) && ioOk &&
     (match mo0.msgs[k]? with | some (.fundPool ..) => true | _ => false))
 
+/-- the pool messages `o10m` expects for this op (same table as in `oracle10m`) -/
+def expectPool13 (cur : World) (op : Op) : Option (List (List Nat)) :=
+  let feeCode (f : Option Coin) : List (List Nat) :=
+    match f with | some f => [[4, cur.self, f.key, f.amount]] | none => []
+  match op with
+    | .exec _ _ (.withdrawPurchased lid) =>
+      (match findById lid cur.mkt.listings with
+       | some (_, l) => some (feeCode l.fee)
+       | none => none)
+    | .exec _ _ (.removeBucket bid) =>
+      (match cur.mkt.buckets.find? (fun (p : (Nat × Nat) × Bucket) => decide (p.1.2 = bid)) with
+       | some (_, b) => some (feeCode b.fee)
+       | none => none)
+    | .exec _ _ (.buy _ bid) =>
+      (match cur.mkt.buckets.find? (fun (p : (Nat × Nat) × Bucket) => decide (p.1.2 = bid)) with
+       | some (_, b) => some (feeCode b.fee)
+       | none => none)
+    | _ => some []
+
+/-- denomination field of a pool-message code `[4, depositor, denom, amount]` -/
+def codeDenom (c : List Nat) : Option Nat := c[2]?
+
+/-- C13 (`o13r`): "a fee already recorded is unaffected by later switches" — the community-pool
+    messages of a response carry the denominations of the recorded fees that leave with this op
+    (whatever the denomination in force now). Weaker than `o10m`, which also compares amounts. -/
+def oracle13r (cur : World) (op : Op) (codes : List (List Nat)) : Bool :=
+  match expectPool13 cur op with
+  | some e => (poolCodes codes).map codeDenom == (sortCodes e).map codeDenom
+  | none => true
+
+theorem o13r_of_o10m (cur : World) (op : Op) (codes : List (List Nat))
+    (h : oracle10m cur op codes = true) : oracle13r cur op codes = true := by
+  unfold oracle13r
+  have he : oracle10m cur op codes =
+      (match expectPool13 cur op with
+       | some e => poolCodes codes == sortCodes e
+       | none => true) := by
+    unfold oracle10m expectPool13; rfl
+  rw [he] at h
+  split
+  · next e heq =>
+    rw [heq] at h
+    simp only [beq_iff_eq] at h ⊢
+    rw [h]
+  · rfl
+
 end Fuzion.Orc
